@@ -174,3 +174,42 @@ M("C07", "client-posts-with-get-transform", "client.py", "        req = self.c2h
 M("C07", "client-id-hex", "client.py", "                id=str(self.beacon_id).encode(),", "                id=hex(self.beacon_id).encode(),", "C07.R4")
 M("C07", "task-as-callback", "c2.py", "            if isinstance(c2data, ClientC2Data):\n                yield CallbackPacket(plaintext)\n            elif isinstance(c2data, ServerC2Data):\n                yield TaskPacket(plaintext)", "            if isinstance(c2data, ServerC2Data):\n                yield CallbackPacket(plaintext)\n            elif isinstance(c2data, ClientC2Data):\n                yield TaskPacket(plaintext)", "C07.R4")
 T("C07", "twin-nested-ifs", "c2.py", "            if http.method == self.get_verb and http.uri.startswith(self.get_uris):\n                return self.transform_get", "            if http.method == self.get_verb:\n                if http.uri.startswith(self.get_uris):\n                    return self.transform_get\n            if False:\n                pass")
+
+# =============================================================================== C08
+M("C08", "find-mz-no-eof-guard", "pe.py", "        except EOFError:\n            continue\n    return None\n\n\ndef find_compile_stamps", "        except IndexError:\n            continue\n    return None\n\n\ndef find_compile_stamps", "C08.R1")
+M("C08", "compile-stamps-eof-regression", "pe.py", "    except EOFError:\n        # truncated image: report the stamps found so far\n        pass", "    except KeyError:\n        # truncated image: report the stamps found so far\n        pass", "C08.R1")
+M("C08", "settings-eof-unhandled", "beacon.py", "        except EOFError:\n            break\n        if setting.index == BeaconSetting.SETTING_USERAGENT:", "        except KeyError:\n            break\n        if setting.index == BeaconSetting.SETTING_USERAGENT:", "C08.R1")
+M("C08", "guard-negative-seek-regression", "guardrails.py", "            if beacon_config_offset < 0:\n                # no room for a beacon config patch area before the marker, not a valid candidate\n                offset += 1\n                continue\n", "", "C08.R1")
+M("C08", "guard-eof-regression", "guardrails.py", "                try:\n                    setting = GuardrailSetting(fh_guard)\n                except EOFError:\n                    # truncated or bogus guardrail config\n                    break", "                setting = GuardrailSetting(fh_guard)", "C08.R1")
+M("C08", "rawhttp-index-parts", "c2.py", "    parts = first_line.rstrip().split()\n    if len(parts) != 3:\n        raise ValueError(f\"Error in parsing request status line: {first_line!r}\")\n    method, uri, _version = parts",
+  "    parts = first_line.rstrip().split()\n    method, uri, _version = parts[0], parts[1], parts[2]", "C08.R1")
+M("C08", "rawhttp-assert", "c2.py", "        if len(parts) != 3:\n            raise ValueError(f\"Error in parsing response status line: {first_line!r}\")", "        assert len(parts) == 3, f\"Error in parsing response status line: {first_line!r}\"", "C08.R1")
+M("C08", "export-offset-signed-math", "pe.py", "            offset = export_dd.VirtualAddress - ds.VirtualAddress + ds.PointerToRawData + mz_offset", "            offset = export_dd.VirtualAddress - ds.VirtualSize + ds.PointerToRawData + mz_offset", "C08.R1")
+M("C08", "elfanew-unguarded", "pe.py", "            if mz.e_lfanew > 0 and mz.e_lfanew < maxrange:\n                fh.seek(start_offset + offset + 4 + mz.e_lfanew)\n                image = pestruct.IMAGE_FILE_HEADER(fh)\n                if image.Machine in (",
+  "            if mz.e_lfanew < maxrange:\n                fh.seek(start_offset + offset + 4 + mz.e_lfanew)\n                image = pestruct.IMAGE_FILE_HEADER(fh)\n                if image.Machine in (", "C08.R1")
+M("C08", "extra-info-key", "beacon.py", "            bconfig.xorencoded = extra_info[\"xorencoded\"]", "            bconfig.xorencoded = extra_info[\"xorencoded\"]\n            bconfig.nonce = extra_info[\"nonce_offset\"]", "C08.R1")
+M("C08", "ua-loop-regression", "beacon.py", "                        if not x:\n                            # end of data before the NUL terminator\n                            break\n", "", "C08.R2")
+M("C08", "needle-empty-block-test", "utils.py", "        if not block:\n            break\n        d = saved + block", "        if block is None:\n            break\n        d = saved + block", "C08.R2")
+M("C08", "artifact-continue-skips-increment", "artifact.py", "        if pos + 16 == utils.u32(data):", "        if data == b\"\\x00\\x00\\x00\\x00\":\n            continue\n        if pos + 16 == utils.u32(data):", "C08.R2")
+M("C08", "xorfile-read-no-exit", "xordecode.py", "            if not chunk:\n                break\n", "            if chunk is None:\n                break\n", "C08.R2")
+M("C08", "unbounded-retry", "beacon.py", "        yield from iter_beacon_config_blocks(fobj, left_xor_keys, xordecode=xordecode, all_xor_keys=False)", "        yield from iter_beacon_config_blocks(fobj, left_xor_keys, xordecode=xordecode, all_xor_keys=all_xor_keys)", "C08.R2")
+M("C08", "stamps-none-to-zero", "pe.py", "    mz_offset = find_mz_offset(fh, start_offset=start_offset, maxrange=maxrange)\n    if mz_offset is None:\n        return (None, None)\n\n    compile_stamp = None", "    mz_offset = find_mz_offset(fh, start_offset=start_offset, maxrange=maxrange)\n    if mz_offset is None:\n        return (0, 0)\n\n    compile_stamp = None", "C08.R3")
+T("C08", "twin-broader-except", "pe.py", "        except EOFError:\n            continue\n    return None\n\n\ndef find_compile_stamps", "        except (EOFError, OSError):\n            continue\n    return None\n\n\ndef find_compile_stamps")
+T("C08", "twin-len-test", "utils.py", "        if not block:\n            break\n        d = saved + block", "        if len(block) == 0:\n            break\n        d = saved + block")
+T("C08", "twin-guard-ge", "guardrails.py", "            if beacon_config_offset < 0:\n                # no room for a beacon config patch area before the marker, not a valid candidate\n                offset += 1\n                continue\n            fh.seek(beacon_config_offset)",
+  "            if not beacon_config_offset >= 0:\n                offset += 1\n                continue\n            fh.seek(beacon_config_offset)")
+
+# =============================================================================== C15
+M("C15", "zero-seed-regression", "utils.py", "    saved = b\"\"\n", "    saved = b\"\\x00\" * overlap_len\n", "C15.R1")
+M("C15", "zero-overlap-regression", "utils.py", "        saved = d[-overlap_len:] if overlap_len else b\"\"", "        saved = d[-overlap_len:]", "C15.R2")
+M("C15", "offset-minus-overlap", "utils.py", "            offset = pos + p - len(saved)", "            offset = pos + p - overlap_len", "C15.R3")
+M("C15", "tell-after-read", "utils.py", "        pos = fp.tell()\n        if max_offset and pos > max_offset:\n            break\n        block = fp.read(io.DEFAULT_BUFFER_SIZE)", "        block = fp.read(io.DEFAULT_BUFFER_SIZE)\n        pos = fp.tell()\n        if max_offset and pos > max_offset:\n            break", "C15.R3")
+M("C15", "restart-at-match-end", "utils.py", "            p = d.find(needle, p + 1)", "            p = d.find(needle, p + needle_len) if p >= 0 else d.find(needle)", "C15.R4")
+M("C15", "carry-full-needle", "utils.py", "    overlap_len = needle_len - 1", "    overlap_len = needle_len", "C15.R4")
+M("C15", "limit-nonstrict-offset", "utils.py", "            if p == -1 or max_offset and p > max_offset:", "            if p == -1 or max_offset and pos + p + needle_len >= max_offset:", "C15.R5")
+M("C15", "artifact-step-4", "artifact.py", "        pos += 1\n", "        pos += 4\n", "C15.R6")
+M("C15", "artifact-header-be", "artifact.py", "        if pos + 16 == utils.u32(data):", "        if pos + 16 == utils.u32be(data):", "C15.R6")
+M("C15", "artifact-key-hints-swapped", "artifact.py", "            xorkey = fobj.read(4)\n            hints = fobj.read(8)", "            hints = fobj.read(8)\n            xorkey = fobj.read(4)", "C15.R6")
+M("C15", "artifact-xor-with-hints", "artifact.py", "            payload = utils.xor(data, xorkey)", "            payload = utils.xor(data, hints)", "C15.R6")
+T("C15", "twin-rename", "utils.py", "        d = saved + block", "        d = saved + block  # haystack")
+T("C15", "twin-len-slice", "utils.py", "        saved = d[-overlap_len:] if overlap_len else b\"\"", "        saved = d[len(d) - overlap_len :] if overlap_len else b\"\"")
